@@ -86,6 +86,48 @@ def configs(ctx):
                 work.append({"tag": "F1d(%d,%d)/%s" % (a, b, "none" if st is None else "+".join(s.split("_")[0][0] + s[s.index("("):] for s in st)),
                              "spec": dict(base, mapping=mapping), "extents": ex2, "policies": ["M", "H"],
                              "allowed_rejects": STATED_REJECTS})
+    # an additional, non-projected input co-iterated with the partitioned output rank
+    for first in (False, True):
+        fs = [T("I", {"q": 1, "s": 1}), T("G", "q"), T("F", "s")]
+        if first:
+            fs = [fs[1], fs[0], fs[2]]
+        base = {"decl": {"I": ["W"], "F": ["S"], "G": ["Q"], "O": ["Q"]}, "exprs": [E("O", ["q"], times(*fs))]}
+        exts = [{"Q": 4, "S": 2, "W": 5}, {"Q": 3, "S": 2, "W": 4}]
+        for st in (None, ["uniform_shape(2)"]):
+            part = None if st is None else {"Q": list(st), "W": ["follow(Q)"]}
+            outs = ["Q"] if st is None else levels("Q", len(st))
+            for lo in [None] + legal_orders(outs, ["W", "S"] if st is None else ["W0", "S"]):
+                mapping = {}
+                if part:
+                    mapping["partitioning"] = {"O": part}
+                if lo is not None:
+                    mapping["loop-order"] = {"O": lo}
+                work.append({"tag": "F1dG(1,1)/%s" % ("none" if st is None else "u(2)"), "spec": dict(base, mapping=mapping),
+                             "extents": exts, "policies": ["M", "H"], "allowed_rejects": STATED_REJECTS})
+    # three index variables, negative coefficients (low-side halos)
+    for cs, cv in [(1, 1), (-1, -1), (1, -1)] + ([] if quick else [(-1, -2), (2, -1)]):
+        base = {"decl": {"I": ["W"], "F": ["S"], "K": ["V"], "O": ["Q"]},
+                "exprs": [E("O", ["q"], times(T("I", {"q": 1, "s": cs, "v": cv}), T("F", "s"), T("K", "v")))]}
+        Q, S, V = 4, 2, 2
+        W = Q + max(cs, 0) * (S - 1) + max(cv, 0) * (V - 1)
+        exts = [{"Q": Q, "S": S, "V": V, "W": W}]
+        for st in (None, ["uniform_shape(2)"]):
+            part = None if st is None else {"Q": list(st), "W": ["follow(Q)"]}
+            outs = ["Q"] if st is None else levels("Q", len(st))
+            xs = ["W", "S", "V"] if st is None else ["W0", "S", "V"]
+            los = [None]
+            for pair in itertools.combinations(xs, 2):
+                for perm in itertools.permutations(outs + list(pair)):
+                    if [x for x in perm if x in outs] == outs:
+                        los.append(list(perm))
+            for lo in los:
+                mapping = {}
+                if part:
+                    mapping["partitioning"] = {"O": part}
+                if lo is not None:
+                    mapping["loop-order"] = {"O": lo}
+                work.append({"tag": "F1v3(%d,%d)/%s" % (cs, cv, "none" if st is None else "u(2)"), "spec": dict(base, mapping=mapping),
+                             "extents": exts, "policies": ["M", "H"], "allowed_rejects": STATED_REJECTS})
     # subsampling Z[m] = A[2*m] / A[3*m]
     for c in (2, 3):
         base = {"decl": {"A": ["W"], "Z": ["M"]}, "exprs": [E("Z", ["m"], times(T("A", {"m": c})))]}
